@@ -102,13 +102,23 @@ def P(kind, n='1'):
         'registered-B': 'MSH|^~\\&|||||||BBB^B01^BBB_B01|%s|P|2.5\rZ1A|x' % n,
         'unregistered': 'MSH|^~\\&|||||||CCC^C01|%s|P|2.5' % n,
         'non-hl7': 'HELLO WORLD %s' % n,
+        # routing is by the exact MSH-9 text: none of these is registered
+        'route-prefix-of-A': 'MSH|^~\\&|||||||AAA^A0|%s|P|2.5' % n,
+        'route-type-only': 'MSH|^~\\&|||||||AAA|%s|P|2.5' % n,
+        'route-prefix-of-B': 'MSH|^~\\&|||||||BBB^B01|%s|P|2.5' % n,
+        'route-longer-than-A': 'MSH|^~\\&|||||||AAA^A01^AAA_A01|%s|P|2.5' % n,
+        'route-empty-msh9': 'MSH|^~\\&||||||||%s|P|2.5' % n,
+        'route-one-letter': 'MSH|^~\\&|||||||A|%s|P|2.5' % n,
+        'route-no-msh9': 'MSH|^~\\&|X|Y',
+        'route-lower-case': 'MSH|^~\\&|||||||aaa^a01|%s|P|2.5' % n,
     }[kind].encode()
 
 
 def frames():
     """name -> (bytes, family)"""
     f = {}
-    for k in ('registered-A', 'registered-B', 'unregistered', 'non-hl7'):
+    for k in ('registered-A', 'registered-B', 'unregistered', 'non-hl7', 'route-prefix-of-A', 'route-type-only', 'route-prefix-of-B',
+              'route-longer-than-A', 'route-empty-msh9', 'route-one-letter', 'route-no-msh9', 'route-lower-case'):
         f[k] = SB + P(k) + CR + EB + CR
     f['registered-A-no-final-cr'] = SB + P('registered-A') + EB + CR
     f['empty-payload'] = SB + EB + CR
@@ -438,7 +448,8 @@ def units(tier):
     us = []
     for name in frames():
         for with_err in (True, False):
-            us.append(('single', name, with_err, maxparts))
+            # routing does not depend on how the frame arrives: the routing kinds are cut in at most two arrivals
+            us.append(('single', name, with_err, 2 if name.startswith('route-') else maxparts))
     for v in VERSIONS:
         us.append(('framing', v))
     kinds = ['registered-A', 'registered-B', 'unregistered', 'non-hl7']
